@@ -4,6 +4,8 @@ import (
 	"bytes"
 	"strconv"
 	"time"
+
+	"github.com/scrapli/scrapligo/util/simhook"
 )
 
 const (
@@ -22,11 +24,15 @@ func getID(match [][]byte) int {
 }
 
 func (d *Driver) read() {
+	simhook.Enter("nc.reader")
+
 	var b []byte
 
 	patterns := getNetconfPatterns()
 
 	for {
+		simhook.Yield("nc.read.top")
+
 		select {
 		case <-d.done:
 			return
@@ -35,6 +41,8 @@ func (d *Driver) read() {
 
 		rb, err := d.Channel.Read()
 		if err != nil {
+			simhook.Yield("nc.read.errsend")
+
 			d.errs <- err
 		}
 
@@ -74,6 +82,8 @@ func (d *Driver) read() {
 					d.Logger.Debugf(
 						"Received message response for message ID '%d', storing", messageID,
 					)
+
+					simhook.Yield("nc.read.store")
 
 					d.storeMessage(messageID, b)
 				}
